@@ -68,6 +68,21 @@ func resU64(x uint64, err error) string {
 	return fmt.Sprintf("%x", x)
 }
 
+// decimal renderings for the property messages
+func showU32(x uint32, err error) string {
+	if err != nil {
+		return "error"
+	}
+	return fmt.Sprintf("%d", x)
+}
+
+func showU64(x uint64, err error) string {
+	if err != nil {
+		return "error"
+	}
+	return fmt.Sprintf("%d", x)
+}
+
 func resBool(b bool, err error) string {
 	if err != nil {
 		return "none"
@@ -463,11 +478,11 @@ func main() {
 				switch {
 				case v.Status == validation.StatusUnknown || v.Status == validation.StatusQueued:
 					if itErr != nil || it != 0 {
-						pf("current_iteration_not_running %s: CurrentIteration=%s, want 0", c.String(), resU32(it, itErr))
+						pf("current_iteration_not_running %s: CurrentIteration=%s, want 0", c.String(), showU32(it, itErr))
 					}
 				case v.Status == validation.StatusExit || v.CompletedPeriods > 0:
 					if itErr != nil || it != v.CompletedPeriods {
-						pf("current_iteration_not_running %s: CurrentIteration=%s, want CompletedPeriods", c.String(), resU32(it, itErr))
+						pf("current_iteration_not_running %s: CurrentIteration=%s, want CompletedPeriods", c.String(), showU32(it, itErr))
 					}
 				case cur < v.StartBlock || v.Period == 0: // current_iteration_active_errors
 					if itErr == nil {
@@ -476,7 +491,7 @@ func main() {
 				default: // current_iteration_active_spec: (currentBlock - StartBlock) / Period + 1 whenever that fits 32 bits
 					want := uint64(cur-v.StartBlock)/uint64(v.Period) + 1
 					if want < 1<<32 && (itErr != nil || uint64(it) != want) {
-						pf("current_iteration_active_spec %s: CurrentIteration=%s, want (currentBlock-StartBlock)/Period+1 = %d", c.String(), resU32(it, itErr), want)
+						pf("current_iteration_active_spec %s: CurrentIteration=%s, want (currentBlock-StartBlock)/Period+1 = %d", c.String(), showU32(it, itErr), want)
 					}
 					// period_end_iff_iteration_advances + is_period_end_spec
 					end := v.IsPeriodEnd(cur)
@@ -487,7 +502,7 @@ func main() {
 						prev, perr := v.CurrentIteration(cur - 1)
 						if perr != nil || itErr != nil || end != (it == prev+1) || (!end && it != prev) {
 							pf("period_end_iff_iteration_advances %s: IsPeriodEnd=%v CurrentIteration(current-1)=%s CurrentIteration(current)=%s",
-								c.String(), end, resU32(prev, perr), resU32(it, itErr))
+								c.String(), end, showU32(prev, perr), showU32(it, itErr))
 						}
 					}
 				}
@@ -496,19 +511,19 @@ func main() {
 				switch {
 				case v.Status == validation.StatusUnknown || v.Status == validation.StatusQueued:
 					if ciErr != nil || ci != 0 {
-						pf("completed_iterations_spec %s: CompletedIterations=%s, want 0", c.String(), resU32(ci, ciErr))
+						pf("completed_iterations_spec %s: CompletedIterations=%s, want 0", c.String(), showU32(ci, ciErr))
 					}
 				case v.Status == validation.StatusExit:
 					if ciErr != nil || ci != v.CompletedPeriods {
-						pf("completed_iterations_spec %s: CompletedIterations=%s, want CompletedPeriods", c.String(), resU32(ci, ciErr))
+						pf("completed_iterations_spec %s: CompletedIterations=%s, want CompletedPeriods", c.String(), showU32(ci, ciErr))
 					}
 				case v.CompletedPeriods > 0:
 					if ciErr != nil || ci != v.CompletedPeriods-1 {
-						pf("completed_iterations_spec %s: CompletedIterations=%s, want CompletedPeriods-1", c.String(), resU32(ci, ciErr))
+						pf("completed_iterations_spec %s: CompletedIterations=%s, want CompletedPeriods-1", c.String(), showU32(ci, ciErr))
 					}
 				case cur >= v.StartBlock && v.Period != 0:
 					if ciErr != nil || ci != (cur-v.StartBlock)/v.Period {
-						pf("completed_iterations_spec %s: CompletedIterations=%s, want (currentBlock-StartBlock)/Period", c.String(), resU32(ci, ciErr))
+						pf("completed_iterations_spec %s: CompletedIterations=%s, want (currentBlock-StartBlock)/Period", c.String(), showU32(ci, ciErr))
 					}
 				}
 				// current_iteration_monotone / started_monotone / ended_monotone (later block below 2^32 - 1)
@@ -516,7 +531,7 @@ func main() {
 				if later >= cur && later < ^uint32(0) && itErr == nil {
 					it2, err2 := v.CurrentIteration(later)
 					if err2 != nil || it2 < it {
-						pf("current_iteration_monotone %s: CurrentIteration=%d but at block %d: %s", c.String(), it, later, resU32(it2, err2))
+						pf("current_iteration_monotone %s: CurrentIteration=%d but at block %d: %s", c.String(), it, later, showU32(it2, err2))
 					}
 					if s1, e1 := d.Started(v, cur); e1 == nil && s1 {
 						if s2, e2 := d.Started(v, later); e2 != nil || !s2 {
@@ -560,7 +575,7 @@ func main() {
 				if v.LockedVET < 1<<62 && v.QueuedVET < 1<<62 {
 					tvl, err := v.NextPeriodTVL()
 					if (err != nil) != (v.LockedVET+v.QueuedVET < v.PendingUnlockVET) || (err == nil && tvl != v.LockedVET+v.QueuedVET-v.PendingUnlockVET) {
-						pf("next_period_tvl_spec LockedVET=%d QueuedVET=%d PendingUnlockVET=%d: NextPeriodTVL=%s", v.LockedVET, v.QueuedVET, v.PendingUnlockVET, resU64(tvl, err))
+						pf("next_period_tvl_spec LockedVET=%d QueuedVET=%d PendingUnlockVET=%d: NextPeriodTVL=%s", v.LockedVET, v.QueuedVET, v.PendingUnlockVET, showU64(tvl, err))
 					}
 				}
 				// started_spec / ended_spec / ended_implies_started / is_locked_iff
@@ -572,7 +587,7 @@ func main() {
 						pf("started_spec %s: Started=%s on a validation that is not active", c.String(), resBool(st, stErr))
 					}
 				} else if (stErr != nil) != (itErr != nil) || (stErr == nil && st != (it >= d.FirstIteration)) {
-					pf("started_spec %s: Started=%s CurrentIteration=%s", c.String(), resBool(st, stErr), resU32(it, itErr))
+					pf("started_spec %s: Started=%s CurrentIteration=%s", c.String(), resBool(st, stErr), showU32(it, itErr))
 				}
 				if v.Status != validation.StatusQueued && itErr == nil {
 					want := (v.Status == validation.StatusExit && it >= d.FirstIteration) || (d.LastIteration != nil && *d.LastIteration < it)
